@@ -744,6 +744,10 @@ class World(object):
             if ra is not None and ra[0] is True and wfb == "running" and self.status != "failed":
                 self.report("C13", "retry_when_due", "%s not retried although attempts remain and the condition holds"
                             % x.key())
+            if ra is not None and ra[0] is True and wfb not in ("running", "resuming", "pausing", "canceling"):
+                # the attempt reported after the workflow stopped being active: not retried (by
+                # design); a later rerun continues from this attempt's failure handling
+                self.retry_cut = True
             if ra is not None and ra[0] == "fault":
                 L.runtime_errors.append((x.xid, "retry"))
         L.on_completed(x, obs, result, wfb)
@@ -1054,6 +1058,7 @@ class World(object):
     last_request = None
     expect_release = None
     terminal_at_offer = None
+    retry_cut = False
     kf_items_loop = None
     forced_failed = False
     held_back = 0
@@ -1355,11 +1360,17 @@ def stale_explains(var, observed, merged, branches):
     *older* write of the same variable -- one that the lineage of the expected value had already
     seen -- and one of the merged branches still carried it as a merely inherited value."""
     m = merged.vals.get(var)
-    for br in branches:
+    seen_expected = False
+    for br in branches:                      # in arrival (merge) order
         w = br.vals.get(var)
-        if w is None or (m is not None and w.wid == m.wid):
+        if w is None:
             continue
-        if jeq(w.value, observed) and w.wid in merged.hist:
+        if m is not None and w.wid == m.wid:
+            seen_expected = True
+            continue
+        # the finding's mechanism: the branch with the merely inherited older value is merged
+        # *after* a branch that carried the newer one, and re-applies the older delta
+        if seen_expected and jeq(w.value, observed) and w.wid in merged.hist:
             return True
     return False
 
